@@ -289,7 +289,7 @@ impl World {
     }
     fn refresh(&mut self, i: usize, keep: bool, hist: &str) {
         let (p, usk, mk) = &mut self.keys[i];
-        self.cc.refresh_usk(&mut self.msk, usk, keep).unwrap_or_else(|e| panic!("C09: after [{hist}] refreshing the key for '{p}' (keep = {keep}) must succeed: {e}"));
+        self.cc.refresh_usk(&mut self.msk, usk, keep).unwrap_or_else(|e| panic!("C04/C09: after [{hist}] refreshing the key for '{p}' (keep = {keep}) must succeed: {e}"));
         self.model.refresh(mk, keep);
     }
     fn roundtrip(&mut self) {
